@@ -16,20 +16,20 @@ LEVEL = "exploration"
 RULE = (
     "Hypothesis generates MetaModule recipes: nesting depth 0..2 (quick) / 0..4 (thorough) with MetaModules inside embedded projects, embedded "
     "projects of up to 5 modules/level of mixed types (ranges with negative minimum, enums, booleans, unit-dependent), user-controller count n over "
-    "{0,1,2,27,95,96} and uniform 0..96, mappings onto generated (module, controller) targets of every controller kind and onto arbitrary u16 pairs, "
+    "{0,1,2,27,95,96} and uniform 0..96, mappings onto generated (module, controller) targets of every controller kind, onto user controllers of inner MetaModules (dedicated chain shards: outer -> inner user controller -> any controller of any module type) and onto arbitrary u16 pairs, "
     "labels (any text without NUL) at generated indices < n, the count raised and lowered on the same object before it settles at n, labels left on controllers beyond the count, value types re-derived or not before saving, values assigned through user controllers "
     "where the target admits them; both contexts (stand-alone synth / in a project). Oracle: snapshot equality after save/load (embedded project "
     "recursively under the C01 oracle, count, all 96 mappings, labels < n, stored values, attached set = first n), file structure (5+n CVALs, "
-    "8(5+n) CMID bytes, label chunks only for indices < n, via independent chunk parsing), second cycle byte-identical; plus edit histories (load - edit in place, also inside nested embedded projects, optionally saving in between - save - load) under C06's metamorphic oracle. non-trivial = n >= 1 with a "
+    "8(5+n) CMID bytes, label chunks only for indices < n, via independent chunk parsing), second cycle byte-identical, and every loaded user controller whose mapping chain resolves to a spec'd controller shows its stored value read under that controller's declared range; plus edit histories (load - edit in place, also inside nested embedded projects, optionally saving in between - save - load) under C06's metamorphic oracle. non-trivial = n >= 1 with a "
     "mapping onto a non-plain-range target, or depth >= 1"
 )
 ASSUMPTIONS = [
     "mapping 'controller' is the 0-based index the library itself uses when it resolves a mapping",
     "values are assigned through a user controller only when its mapping names an existing embedded controller with range minimum 0 (where stored and user value coincide), an enum or a boolean",
-    "user-visible values of user controllers are not claimed, stored values are",
+    "for a *loaded* MetaModule the value a user controller shows is claimed to be its stored value read under the resolved target's declared range; for constructed ones only stored values are claimed",
 ]
 REQUIRED_LABELS = {
-    "quick": ["edit_history", "depth_0", "depth_1", "depth_2", "count_0", "count_96", "count_mid", "map_enum", "map_bool", "map_negative_range", "label_set", "ctx_synth", "ctx_project", "user_value_set", "types_rederived", "label_beyond_count", "count_lowered", "user_ctl_midi_binding"],
+    "quick": ["edit_history", "depth_0", "depth_1", "depth_2", "count_0", "count_96", "count_mid", "map_enum", "map_bool", "map_negative_range", "label_set", "ctx_synth", "ctx_project", "user_value_set", "types_rederived", "label_beyond_count", "count_lowered", "user_ctl_midi_binding", "map_onto_inner_user_controller"],
     "thorough": ["edit_history", "depth_0", "depth_1", "depth_2", "depth_3", "count_0", "count_96", "count_95", "count_27", "count_mid", "map_enum", "map_bool", "map_negative_range", "map_dependent", "label_set", "ctx_synth", "ctx_project", "user_value_set", "types_rederived"],
 }
 INNER_TYPES = ["Amplifier", "Adsr", "Lfo", "Filter", "Generator", "Delay", "MultiSynth", "VorbisPlayer", "Compressor"]
@@ -42,6 +42,9 @@ def exhaustive(tier):
 def plan(tier):
     n, per, depth = (16, 60, 2) if tier == "quick" else (16, 800, 4)
     descs = [{"kind": "random", "examples": per, "max_depth": depth} for _ in range(n)]
+    # chains outer user controller -> inner user controller -> any controller of any module type, many per process
+    for i in range(3):
+        descs.append({"kind": "random", "examples": per, "max_depth": depth, "chain": True})
     # second generation: load what was saved, edit it in place (also inside nested embedded projects,
     # optionally saving in between), save and load again
     for f in ("NestedMeta", "NestedMeta", "MetaModule"):
@@ -74,6 +77,11 @@ def meta_spec(draw, depth, in_project):
     for mi, ms in enumerate(inner["modules"], 1):
         for ci, c in enumerate(spec[ms["type"]].controllers):
             targets.append([mi, ci, ms["type"], c.name])
+        if ms["type"] == "MetaModule":
+            # the inner MetaModule's own user-defined controllers (index 5 and up) are targets too
+            for k in range(min(ms["payload"]["count"], 3)):
+                targets.append([mi, 5 + k, "MetaModule", "user_defined_%d" % (k + 1)])
+                targets.append([mi, 5 + k, "MetaModule", "user_defined_%d" % (k + 1)])
     maps, user_sets = [], []
     if n:
         k = draw(st.integers(0, min(n, 8)))
@@ -82,6 +90,8 @@ def meta_spec(draw, depth, in_project):
             if targets and draw(st.integers(0, 4)) > 0:
                 mi, ci, t, cname = draw(st.sampled_from(targets))
                 maps.append([i, mi, ci])
+                if cname.startswith("user_defined_"):
+                    continue
                 c = spec[t].ctl(cname)
                 if draw(st.booleans()):
                     if c.kind in ("range", "compact", "no_offset") and c.min == 0:
@@ -97,6 +107,11 @@ def meta_spec(draw, depth, in_project):
         lidx = draw(st.lists(st.sampled_from(sorted({0, n - 1, n // 2} | set(range(min(n, 4))))), max_size=4, unique=True))
         labels = [[i, draw(vs.text_no_nul(12))] for i in lidx]
     rederive = draw(st.booleans())
+    # library precondition (see vlib.edits.live_propagation_hazard): a value assigned through a user
+    # controller mapped to (module, index) is echoed to whatever mapping names (module, index + 1)
+    taken = {(mi, ci) for _, mi, ci in maps}
+    by_idx = {i: (mi, ci) for i, mi, ci in maps}
+    user_sets = [us for us in user_sets if (by_idx[us[0]][0], by_idx[us[0]][1] + 1) not in taken]
     payload = {"project": inner, "count": n, "mappings": maps, "labels": labels}
     if n:
         cidx = draw(st.lists(st.sampled_from(sorted({0, n - 1, n // 2})), max_size=2, unique=True))
@@ -122,6 +137,37 @@ def meta_spec(draw, depth, in_project):
     return ms
 
 
+@st.composite
+def chain_spec(draw):
+    """outer.user_defined_1 -> inner MetaModule.user_defined_k -> a controller of any kind of any module type."""
+    spec = specmodel.load()
+    ttype = draw(st.sampled_from(sorted(t for t in spec if t not in ("Output", "MetaModule") and spec[t].controllers)))
+    target = draw(build.module_spec(in_project=True, depth=0, tname=ttype, dense=True))
+    ci = draw(st.integers(0, len(spec[ttype].controllers) - 1))
+    k = draw(st.integers(0, 2))
+    inner = draw(meta_spec(0, in_project=True))
+    inner["payload"]["project"]["modules"] = [target] + inner["payload"]["project"]["modules"][:2]
+    inner["payload"]["project"]["links"] = []
+    inner["payload"]["count"] = max(inner["payload"]["count"], k + 1)
+    inner["payload"]["mappings"] = [mp for mp in inner["payload"]["mappings"] if mp[0] != k and mp[1] <= 3] + [[k, 1, ci]]
+    inner["user_sets"] = []
+    inner["rederive"] = draw(st.booleans())
+    outer = draw(meta_spec(0, in_project=True))
+    outer["payload"]["project"]["modules"] = [inner] + outer["payload"]["project"]["modules"][:1]
+    outer["payload"]["project"]["links"] = []
+    j = draw(st.integers(0, 2))
+    outer["payload"]["count"] = max(outer["payload"]["count"], j + 1)
+    outer["payload"]["mappings"] = [mp for mp in outer["payload"]["mappings"] if mp[0] != j and mp[1] <= 2] + [[j, 1, 5 + k]]
+    outer["user_sets"] = []
+    outer["rederive"] = draw(st.booleans())
+    for m_ in (inner, outer):
+        n = m_["payload"]["count"]
+        m_["payload"]["labels"] = [l for l in m_["payload"]["labels"] if l[0] < n]
+        m_["payload"]["user_cmid"] = [c for c in m_["payload"].get("user_cmid", []) if c[0] < n]
+        m_["labels_beyond_count"] = [l for l in m_.get("labels_beyond_count", []) if l[0] >= n]
+    return outer
+
+
 def build_meta(ms):
     """make_module + the MetaModule-specific steps (recursive for nested specs)."""
     mod = build.make_module(ms)
@@ -129,11 +175,11 @@ def build_meta(ms):
     return mod
 
 
-def finish_meta(mod, ms):
+def finish_meta(mod, ms, top=True):
     # nested MetaModules inside the embedded project
     for i, sub in enumerate(ms["payload"]["project"]["modules"], 1):
         if sub["type"] == "MetaModule":
-            finish_meta(mod.project.modules[i], sub)
+            finish_meta(mod.project.modules[i], sub, top=False)
     hist = ms.get("count_history", [])
     if hist:
         for c in hist:
@@ -143,7 +189,10 @@ def finish_meta(mod, ms):
         mod.user_defined[i].label = text
     if ms.get("rederive"):
         mod.update_user_defined_controllers()
-        for i, v in ms.get("user_sets", []):
+        # values are assigned through user controllers of the outermost MetaModule only: an inner one
+        # echoes every change upwards into the enclosing MetaModule's mapping table (library precondition,
+        # see vlib.edits.live_propagation_hazard)
+        for i, v in ms.get("user_sets", []) if top else []:
             if isinstance(v, list):
                 cls = build.cls_of(v[1])
                 v = getattr(getattr(cls, v[2]), v[3])
@@ -165,7 +214,9 @@ def labels_of(ms):
     labels.add("count_%d" % n if n in (0, 1, 2, 27, 95, 96) else "count_mid")
     inner = ms["payload"]["project"]["modules"]
     for i, mi, ci in ms["payload"]["mappings"]:
-        if 1 <= mi <= len(inner) and ci < len(spec[inner[mi - 1]["type"]].controllers):
+        if 1 <= mi <= len(inner) and inner[mi - 1]["type"] == "MetaModule" and 5 <= ci < 5 + inner[mi - 1]["payload"]["count"]:
+            labels.add("map_onto_inner_user_controller")
+        elif 1 <= mi <= len(inner) and ci < len(spec[inner[mi - 1]["type"]].controllers):
             c = spec[inner[mi - 1]["type"]].controllers[ci]
             if c.kind == "enum":
                 labels.add("map_enum")
@@ -195,6 +246,60 @@ def labels_of(ms):
         if max(h) > ms["payload"]["count"]:
             labels.add("count_lowered")
     return labels
+
+
+def resolve_target(ms, i, depth=0):
+    """Follow user controller i of recipe ms through the mapping tables (also through user controllers of
+    inner MetaModules) to a spec'd controller.  Returns (module recipe, spec controller) or None."""
+    spec = specmodel.load()
+    if depth > 6 or i >= ms["payload"]["count"]:
+        return None
+    mp = {a: (b, c) for a, b, c in ms["payload"]["mappings"]}.get(i)
+    if mp is None:
+        return None
+    mi, ci = mp
+    inner = ms["payload"]["project"]["modules"]
+    if not (1 <= mi <= len(inner)):
+        return None
+    target = inner[mi - 1]
+    ctls = spec[target["type"]].controllers
+    if ci < len(ctls):
+        return target, ctls[ci]
+    if target["type"] == "MetaModule":
+        return resolve_target(target, ci - 5, depth + 1)
+    return None
+
+
+def check_loaded_user_values(ms, loaded, where):
+    """After a load the library derives each user controller's value type from its mapping; the value it
+    then shows must be the stored value read under the *resolved target's* declared range (YAML)."""
+    n = min(ms["payload"]["count"], 96)
+    for i in range(n):
+        r = resolve_target(ms, i)
+        if r is None:
+            continue
+        target, c = r
+        raw = loaded.get_raw("user_defined_%d" % (i + 1))
+        got = getattr(loaded, "user_defined_%d" % (i + 1))
+        if c.kind in ("range", "compact"):
+            want = raw + c.min if c.min < 0 else raw
+        elif c.kind == "no_offset":
+            want = raw
+        elif c.kind == "bool":
+            want = bool(raw)
+        elif c.kind == "enum":
+            if raw not in c.members.values():
+                continue
+            want = raw
+            got = int(got)
+        else:
+            continue
+        if got != want or (c.kind != "bool" and isinstance(got, bool)):
+            raise PropertyViolation(
+                "C15.loaded_user_value",
+                "%s: user controller %d resolves to %s.%s (%s), stored %r, shows %r, expected %r" % (where, i + 1, target["type"], c.name, c.kind, raw, got, want),
+                key="C15.loaded_user_value:" + c.kind,
+            )
 
 
 def file_structure(data, context, n, where):
@@ -249,6 +354,7 @@ def check_meta(ctx, ms):
         if d:
             area = d[0][0].split("/")[2] if d[0][0].startswith("/payload/") else d[0][0].split("/")[1]
             raise PropertyViolation("C15.roundtrip", "%s: %s" % (context, "; ".join("%s: %r -> %r" % x for x in d[:4])), key="C15.roundtrip:" + area)
+        check_loaded_user_values(ms, bmod, context)
         if s1["payload"]["attached"] != list(range(n)):
             raise PropertyViolation("C15.attached.after_load", "attached user controllers after load %r, expected the first %d" % (s1["payload"]["attached"][:5], n))
         # labels at every index < n, mappings all 96
@@ -300,6 +406,9 @@ def run_shard(ctx, desc):
         if len(repr(ms)) < 1500:
             ctx.sample(ms)
 
+    if desc.get("chain"):
+        run_property(ctx, chain_spec(), body, desc["examples"], tag="meta", bucket="meta")
+        return
     depth = st.integers(0, desc["max_depth"])
     strat = depth.flatmap(lambda d: meta_spec(d, in_project=True))
     run_property(ctx, strat, body, desc["examples"], tag="meta", bucket="meta")
